@@ -586,7 +586,7 @@ class ConsensusRun(object):
             bad = 'exception %s escaped %s' % (sim.exceptions[0][1], sim.exceptions[0][0])
             name = sim.exceptions[0][1]
         elif sim.logged_errors:
-            bad = 'a NEWCONSENSUS listener raised %s (logged by the event dispatcher)' % sim.logged_errors[0]
+            bad = 'an event listener raised %s while a document was delivered (logged by the event dispatcher)' % sim.logged_errors[0]
             name = sim.logged_errors[0]
         elif self.conn.client_gone:
             bad = 'the client dropped a healthy connection'
